@@ -52,13 +52,23 @@ def run(ctx, rep):
             a = [exprtree.show(T.operand(x)) for x in t['args']]
             oka = a[0] == 'a2' and 'a3.values' in a[1] and 'map(' in a[1] and 'closure' in a[1] and a[2].startswith('a1.config.n_columns') is False
             oka = a[0] == 'a2' and 'a3.values' in a[1] and 'map(' in a[1] and 'closure' in a[1]
+            if len(a) < 4:
+                rep.ob('C05.rows', 'signature', False, f'generate_vector_queries is called with {len(a)} arguments; the rule maps (queries, values, n_columns, is_verifier_friendly)', td.loc(t['line']), cfg)
+                continue
             flag = a[3]
             okf = all(ok for k_, ok, _, _ in common.friendly_selection(db) if k_ == 'table-flag')
             rep.ob('C05.rows', 'friendly-flag', okf, f'is_bottom_layer_verifier_friendly = {flag[:160]}', td.loc(t['line']), cfg)
             rep.ob('C05.montgomery', 'argument', oka, f'generate_vector_queries(queries={a[0]}, values={a[1][:110]}, ..)', td.loc(t['line']), cfg)
     # (c) row selection
     gv = db.fn(GEN_VECTOR_QUERIES, 'C05')
-    rows(db, rep, gv, cfg)
+    tys = [gv.local_ty(k) for k in range(1, gv.arg_count + 1)]
+    sig_ok = gv.arg_count == 4 and tys[0].startswith('&') and 'Felt' in tys[0] and tys[1].startswith('&') and 'Felt' in tys[1] and \
+        tys[2] in ('u32', 'usize', 'u64') and tys[3] == 'bool'
+    if not sig_ok:
+        rep.ob('C05.rows', 'signature', False, f'generate_vector_queries{tuple(tys)}: the rule maps (queries: &[Felt], values: &[Felt], '
+               'n_columns: integer, is_verifier_friendly: bool); with another signature the row walk cannot be decided', gv.loc(), cfg)
+    else:
+        rows(db, rep, gv, cfg)
     hashsites.check_site(ctx, rep, 'C05.hash', GEN_VECTOR_QUERIES, 'row hash')
 
 
@@ -69,13 +79,36 @@ def _eq_tests(fn, T):
                 yield T.operand(st['rv']['a']), T.operand(st['rv']['b'])
 
 
+I = ('I',)            # the symbolic row index
+CHUNK = ('CHUNK',)    # the symbolic i-th chunk of values.chunks(_exact)(n_columns)
+
+
+def _rewrite(t, f):
+    """bottom-up rewrite of a def-use tree"""
+    if isinstance(t, tuple):
+        t = tuple(_rewrite(x, f) if k else x for k, x in enumerate(t))
+        return f(t)
+    if isinstance(t, dict):
+        return {k: _rewrite(v, f) for k, v in t.items()}
+    return t
+
+
+def _is_range0(t, end_ok):
+    return isinstance(t, tuple) and t[0] == 'agg' and t[1].startswith('core::ops::range::Range') and \
+        t[3].get('start') == ('val', 0) and end_ok(t[3].get('end'))
+
+
 def rows(db, rep, gv, cfg):
     """generate_vector_queries(queries=a1, values=a2, n_columns=a3, friendly=a4): Query i = (queries[i], H(row i)) with
-    row i = values[i*n_columns .. (i+1)*n_columns]. Two ways of writing the row walk are recognised:
-      index form : the Query is built in the function body, index = queries[..], rows are values[mul(..a3..) .. mul(add(..)..a3..)]
-      chunk form : the Query is built in the closure mapped over zip(iter(queries), values.chunks_exact(n_columns)) (or
-                   .chunks), index = the first component of the closure's item and the row is its second component
-    Anything else cannot be decided by this rule and is reported (fail closed)."""
+    row i = values[i*n_columns .. (i+1)*n_columns]. The body that builds the Query (the function itself or the closure
+    it maps over the queries) is rewritten into the function's own terms with a symbolic row index I:
+      for i in 0..queries.len()                      : i -> I
+      queries.iter().enumerate().map(|(i, q)| ..)    : i -> I, q -> queries[I]
+      queries.iter().zip(values.chunks_exact(n)).map(|(q, row)| ..) : q -> queries[I], row -> CHUNK (= row I by the
+                                                       definition of chunks_exact, given the C05.length guard)
+    captured variables are replaced by what the function captured. In those terms the rule requires index = queries[I];
+    the row is values[I*n .. (I+1)*n] or CHUNK; a test n == 1 selects the bare cell values[I] / CHUNK[0]; the friendly
+    hash is poseidon_hash_many(row); the masked hash consumes to_bytes_be of iter(row). Any other walk is reported."""
     bs = common.bodies(db, gv)
     Ts = {f.path: exprtree.Trees(db, f) for f in bs}
     Tg = Ts[gv.path]
@@ -91,63 +124,112 @@ def rows(db, rep, gv, cfg):
     qf, qa = qsite
     Tq = Ts[qf.path]
     flq = dataflow.Flow(db, qf)
-    idx_t = Tq.operand(qa['ops'][qa['fields'].index('index')])
-    idx = exprtree.show(idx_t)
-    vl = flq.operand_leaves(qa['ops'][qa['fields'].index('value')])
-    # index ranges taken of `values` in the function body
-    sl = []
-    for bi, t in gv.calls():
-        if t['f'].get('name') == 'index' and len(t['args']) == 2:
-            r_ = Tg.operand(t['args'][1])
-            if isinstance(r_, tuple) and r_[0] == 'agg' and r_[1].startswith('core::ops::range::Range'):
-                if exprtree.show(Tg.operand(t['args'][0])) == 'a2':
-                    sl.append((exprtree.show(r_[3]['start']), exprtree.show(r_[3]['end'])))
+    A1, A2, A3 = ('arg', 1), ('arg', 2), ('arg', 3)
+    QI = ('proj', A1, ('idx', I))
+
+    def strip_checked(t):
+        # (a op b).0 of overflow-checked arithmetic, and the Range end len(a1)
+        if t[0] == 'proj' and t[2] == '0' and isinstance(t[1], tuple) and t[1][0] in ('add', 'mul', 'sub'):
+            return t[1]
+        return t
+    form = None
+    walk_desc = ''
     if qf is gv:
-        form = 'index'
-        okq = idx.startswith('a1[')
-        good = [x for x in sl if x[0].startswith('mul(') and 'a3' in x[0] and x[1].startswith('mul(') and 'add(' in x[1] and 'a3' in x[1]]
-        oks = len(good) >= 2 and len(good) == len(sl)
-        row_desc = f'hashed slices of values: {sl}'
-        row_leaf = lambda x: x.startswith('a2[*]')
-        is_row = lambda t: isinstance(t, tuple) and t[0] == 'proj' and t[1] == ('arg', 2)
-        ncols = lambda t: t == ('arg', 3)
+        form = 'loop'
+
+        def to_root(t):
+            t = strip_checked(t)
+            if t[0] == 'next' and len(t) == 2 and isinstance(t[1], tuple) and t[1][0] == 'into_iter' and \
+                    _is_range0(t[1][1], lambda e: e == ('len', A1)):
+                return I
+            return t
+        walk_desc = 'for i in 0..queries.len()'
     else:
-        form = 'chunk'
         walk = None
         for bi, t in gv.calls():
             if t['f'].get('name') == 'map' and len(t['args']) == 2:
                 recv, cl = Tg.operand(t['args'][0]), Tg.operand(t['args'][1])
                 if isinstance(cl, tuple) and cl[0] == 'closure' and cl[1] == qf.path:
                     walk = recv
-        okw = isinstance(walk, tuple) and walk[0] == 'zip' and len(walk) == 3 and \
-            walk[1] in (('iter', ('arg', 1)), ('arg', 1)) and isinstance(walk[2], tuple) and \
-            walk[2][0] in ('chunks_exact', 'chunks') and walk[2][1:] == (('arg', 2), ('arg', 3))
-        okq = okw and idx_t == ('proj', ('arg', 2), '0')
-        oks = okw and not sl
-        row_desc = f'rows walked as {exprtree.show(walk)[:120]}; other slices of values: {sl}'
-        row_leaf = lambda x: x.startswith('a2.1')
-        is_row = lambda t: t == ('proj', ('arg', 2), '1')
         ups = common.upvars(db, gv, qf.path)
-        ncols = lambda t: isinstance(t, tuple) and t[0] == 'proj' and t[1] == ('arg', 1) and str(t[2]).isdigit() and \
-            int(t[2]) < len(ups) and ups[int(t[2])] == ('arg', 3)
+        item = {}
+        if isinstance(walk, tuple) and walk[0] == 'zip' and len(walk) == 3 and walk[1] in (('iter', A1), A1) and \
+                isinstance(walk[2], tuple) and walk[2][0] in ('chunks_exact', 'chunks') and walk[2][1] == A2 and \
+                _rewrite(walk[2][2], strip_checked) == A3:
+            form = 'zip-chunks'
+            item = {'0': QI, '1': CHUNK}
+        elif isinstance(walk, tuple) and walk[0] == 'enumerate' and walk[1] in (('iter', A1), A1):
+            form = 'enumerate'
+            item = {'0': I, '1': QI}
+        walk_desc = exprtree.show(walk)[:100]
+
+        def to_root(t):
+            t = strip_checked(t)
+            if t[0] == 'proj' and t[1] == A2 and isinstance(t[2], str) and t[2] in item:
+                return item[t[2]]
+            if t[0] == 'proj' and t[1] == A1 and isinstance(t[2], str) and t[2].isdigit() and int(t[2]) < len(ups):
+                return _rewrite(ups[int(t[2])], strip_checked)
+            return t
     rep.note('row_walk_form', form)
-    rep.ob('C05.rows', 'query-index', okq, f'Query.index = {idx} ({form} form)', qf.loc(), cfg)
-    rep.ob('C05.rows', 'query-value-sources', any(row_leaf(x) for x in vl) and any(x.startswith('call:starknet_crypto::poseidon_hash') for x in vl)
+    if form is None:
+        rep.ob('C05.rows', 'row-walk', False, f'the Query is built in {qf.path.split("::")[-1]} mapped over {walk_desc}: not a recognised walk over '
+               'the queries (loop over 0..len, enumerate, or zip with chunks of n_columns)', qf.loc(), cfg)
+        return
+    rep.ob('C05.rows', 'row-walk', True, f'{form}: {walk_desc}', qf.loc(), cfg)
+    R = lambda op: _rewrite(Tq.operand(op), to_root)
+
+    def is_row(t):
+        if t == CHUNK:
+            return True
+        if not (isinstance(t, tuple) and t[0] == 'proj' and t[1] == A2 and isinstance(t[2], tuple) and t[2][0] == 'idx'):
+            return False
+        r = t[2][1]
+        if not (isinstance(r, tuple) and r[0] == 'agg' and r[1] == 'core::ops::range::Range'):
+            return False
+        s_, e_ = r[3].get('start'), r[3].get('end')
+        return isinstance(s_, tuple) and s_[0] == 'mul' and set(s_[1:]) == {I, A3} and isinstance(e_, tuple) and e_[0] == 'mul' and \
+            A3 in e_[1:] and any(isinstance(x, tuple) and x[0] == 'add' and set(x[1:]) == {I, ('val', 1)} for x in e_[1:])
+
+    def is_cell(t):   # the only cell of a single-column row
+        return t == ('proj', A2, ('idx', I)) or t == ('proj', CHUNK, ('idx', ('val', 0)))
+    idx_t = R(qa['ops'][qa['fields'].index('index')])
+    rep.ob('C05.rows', 'query-index', idx_t == QI, f'Query.index = {exprtree.show(idx_t)[:80]} (expected queries[I])', qf.loc(), cfg)
+    vl = flq.operand_leaves(qa['ops'][qa['fields'].index('value')])
+    rep.ob('C05.rows', 'query-value-sources', any(x.startswith('call:starknet_crypto::poseidon_hash') for x in vl)
            and any('Digest' in x or 'finalize' in x for x in vl), f'Query.value leaves: {sorted(x for x in vl if not x.startswith("op:"))[:6]}', qf.loc(), cfg)
+    # every slice / index of `values` in the body is the row or the single cell
+    sl = []
+    for bi, t in qf.calls():
+        if t['f'].get('name') == 'index' and len(t['args']) == 2:
+            whole = _rewrite(('proj', Tq.operand(t['args'][0]), ('idx', Tq.operand(t['args'][1]))), to_root)
+            if whole[1] in (A2, CHUNK):
+                sl.append(whole)
+    for b in qf.blocks:       # values[i] as a place projection (no Index call for arrays/slices by usize)
+        for st in b['stmts']:
+            if st['k'] == 'assign' and st['rv']['k'] in ('use', 'ref'):
+                pl = st['rv'].get('place') or op_place(st['rv'].get('a') or {})
+                if pl and any(isinstance(e, dict) and 'i' in e for e in pl['p']):
+                    whole = _rewrite(Tq.place(pl), to_root)
+                    if isinstance(whole, tuple) and whole[0] == 'proj' and whole[1] in (A2, CHUNK):
+                        sl.append(whole)
+    bad_sl = [exprtree.show(x)[:90] for x in sl if not (is_row(x) or is_cell(x))]
+    have_row = form == 'zip-chunks' or any(is_row(x) for x in sl)
+    rep.ob('C05.rows', 'row-slices', have_row and not bad_sl,
+           f'{len(sl)} reads of values, all of them row I (values[I*n .. (I+1)*n] or the I-th chunk) or its single cell' if have_row and not bad_sl else
+           f'reads of values that are not row I: {bad_sl[:3]} (row read found: {have_row})', qf.loc(), cfg)
     # single-column bypass: a comparison of n_columns with 1 selects the bare cell
-    okb = any((ncols(a) and c == ('val', 1)) or (ncols(c) and a == ('val', 1)) for a, c in _eq_tests(qf, Tq))
+    okb = any({_rewrite(a, to_root), _rewrite(c, to_root)} == {A3, ('val', 1)} for a, c in _eq_tests(qf, Tq))
     rep.ob('C05.rows', 'single-column-bypass', okb, 'rows of single-column tables are used unhashed (n_columns == 1 test)', qf.loc(), cfg)
-    rep.ob('C05.rows', 'row-slices', oks, row_desc, gv.loc(), cfg)
     pm = [(f, t) for f in bs for _, t in f.calls() if (t['f'].get('resolved') or '').endswith('poseidon_hash_many')]
-    okp = len(pm) == 1 and pm[0][0] is qf and is_row(Tq.operand(pm[0][1]['args'][0]))
-    rep.ob('C05.rows', 'friendly-row-hash', okp, f'{len(pm)} poseidon_hash_many call(s); argument ' +
-           (exprtree.show(Ts[pm[0][0].path].operand(pm[0][1]['args'][0]))[:80] if pm else '-'), gv.loc(), cfg)
-    # masked: a closure inside the body turns every cell into its big-endian bytes, in order
+    arg = R(pm[0][1]['args'][0]) if len(pm) == 1 and pm[0][0] is qf else None
+    rep.ob('C05.rows', 'friendly-row-hash', arg is not None and is_row(arg), f'{len(pm)} poseidon_hash_many call(s); argument ' +
+           (exprtree.show(arg)[:80] if arg is not None else '-'), gv.loc(), cfg)
+    # masked: a closure inside the body turns every cell of the row into its big-endian bytes, in order
     okm = False
     fm = ''
     for _, t in qf.calls():
         if t['f'].get('name') in ('flat_map', 'map') and len(t['args']) == 2:
-            recv, cl = Tq.operand(t['args'][0]), Tq.operand(t['args'][1])
+            recv, cl = R(t['args'][0]), Tq.operand(t['args'][1])
             if isinstance(cl, tuple) and cl[0] == 'closure' and cl[1] in db.fns:
                 cf = db.fns[cl[1]]
                 Tc = exprtree.Trees(db, cf)
